@@ -705,4 +705,4 @@ class CallMixin:
 _BUILTIN_METHODS = {"add", "append", "get", "items", "keys", "values", "union", "intersection", "copy", "update",
                     "setdefault", "remove", "extend", "startswith", "endswith", "strip", "lstrip", "rstrip", "split",
                     "splitlines", "join", "format", "index", "find", "replace", "lower", "upper", "pop", "sort",
-                    "removeprefix", "removesuffix", "count", "discard", "difference", "issubset", "encode", "isdigit"}
+                    "removeprefix", "removesuffix", "count", "discard", "difference", "issubset", "encode", "isdigit", "partition", "clear"}
